@@ -23,6 +23,7 @@ Definition qle (a b : Qc) : bool := Qle_bool a b.          (* a <= b *)
 Definition qlt (a b : Qc) : bool := negb (Qle_bool b a).   (* a < b *)
 Definition half : Qc := Q2Qc (1 # 2).
 Definition two : Qc := Q2Qc 2.
+Definition neg1 : Qc := Qcopp 1.          (* the gravity cosine of a vertical connection *)
 Fixpoint qsum (l : list Qc) : Qc := match l with [] => 0 | a :: r => a + qsum r end.
 Definition qmin (a b : Qc) : Qc := if qle a b then a else b.      (* Python min([a, b]) *)
 
@@ -85,7 +86,9 @@ Definition zc (g : rgeo) (k i j : nat) : Qc :=
 Definition colidx (n m : nat) : list (nat * nat) := flat_map (fun j => map (fun i => (i, j)) (seq 0 n)) (seq 0 m).
 
 Record cellrec := mkCell { cc : cid; cvol : Qc; ccen : option (Qc * Qc * Qc) }.
-Record linkrec := mkLink { la : cid; lb : cid; ldir : nat; lda : Qc; ldb : Qc; larea : Qc }.
+(** [ldcn / sqrt ldcr]: the gravity cosine (dircos) of the connection: -1 for vertical connections; for a horizontal
+    one -(dz) / |d| with d the vector between the two block centres (non-zero beside a truncated block) *)
+Record linkrec := mkLink { la : cid; lb : cid; ldir : nat; lda : Qc; ldb : Qc; larea : Qc; ldcn : Qc; ldcr : Qc }.
 
 (** add_atmosphereblocks *)
 Definition atm_cells (g : rgeo) : list cellrec :=
@@ -109,11 +112,11 @@ Definition vlink (g : rgeo) (k : nat) (c : nat * nat) : option linkrec :=
   let (i, j) := c in
   if (k =? 1)%nat || qle (gsurf g i j) (top g k) then
     match gatm g with
-    | 0%nat => Some (mkLink (Cell k i j) Atm0 3 (gsurf g i j - zc g k i j) (gatmconn g) (area g i j))
-    | 1%nat => Some (mkLink (Cell k i j) (Cell 0 i j) 3 (gsurf g i j - zc g k i j) (gatmconn g) (area g i j))
+    | 0%nat => Some (mkLink (Cell k i j) Atm0 3 (gsurf g i j - zc g k i j) (gatmconn g) (area g i j) neg1 1)
+    | 1%nat => Some (mkLink (Cell k i j) (Cell 0 i j) 3 (gsurf g i j - zc g k i j) (gatmconn g) (area g i j) neg1 1)
     | _ => None
     end
-  else Some (mkLink (Cell k i j) (Cell (k - 1) i j) 3 (top g k - lcen g k) (zc g (k - 1) i j - bot g (k - 1)) (area g i j)).
+  else Some (mkLink (Cell k i j) (Cell (k - 1) i j) 3 (top g k - lcen g k) (zc g (k - 1) i j - bot g (k - 1)) (area g i j) neg1 1).
 Fixpoint cat_some {A} (l : list (option A)) : list A :=
   match l with [] => [] | Some a :: r => a :: cat_some r | None :: r => cat_some r end.
 (** add_horizontal_layer_connections over the x-connections (j outer, i inner) then the
@@ -121,10 +124,14 @@ Fixpoint cat_some {A} (l : list (option A)) : list A :=
     distances of the column centres from the shared edge, area = edge length x lower height *)
 Definition xlink (g : rgeo) (k i j : nat) : linkrec :=
   mkLink (Cell k i j) (Cell k (S i) j) 1 (dxi g i * half) (dxi g (S i) * half)
-         (dyj g j * qmin (height g k i j) (height g k (S i) j)).
+         (dyj g j * qmin (height g k i j) (height g k (S i) j))
+         (- (zc g k (S i) j - zc g k i j))
+         ((ccx g (S i) - ccx g i) * (ccx g (S i) - ccx g i) + (zc g k (S i) j - zc g k i j) * (zc g k (S i) j - zc g k i j)).
 Definition ylink (g : rgeo) (k i j : nat) : linkrec :=
   mkLink (Cell k i j) (Cell k i (S j)) 2 (dyj g j * half) (dyj g (S j) * half)
-         (dxi g i * qmin (height g k i j) (height g k i (S j))).
+         (dxi g i * qmin (height g k i j) (height g k i (S j)))
+         (- (zc g k i (S j) - zc g k i j))
+         ((ccy g (S j) - ccy g j) * (ccy g (S j) - ccy g j) + (zc g k i (S j) - zc g k i j) * (zc g k i (S j) - zc g k i j)).
 Definition xlinks (g : rgeo) (k : nat) : list linkrec :=
   flat_map (fun j => flat_map (fun i => if has g k i j && has g k (S i) j then [xlink g k i j] else [])
                               (seq 0 (nx g - 1))) (seq 0 (ny g)).
@@ -149,14 +156,14 @@ Variable K : Type.
 Variable keqb : K -> K -> bool.
 
 Record block := mkBlock { bkey : K; bvol : Qc; bcen : option (Qc * Qc * Qc) }.
-Record conn := mkConn { ka : K; kb : K; kdir : nat; kda : Qc; kdb : Qc; karea : Qc }.
+Record conn := mkConn { ka : K; kb : K; kdir : nat; kda : Qc; kdb : Qc; karea : Qc; kdcn : Qc; kdcr : Qc }.
 (** [cnames b]: the connection_name set of block b in its iteration order *)
 Record grid := mkGrid { blocks : list block; conns : list conn; cnames : K -> list (K * K) }.
 
 (** t2grid().fromgeo(geo, blockmap) for the rectangular geometry g named by nm
     (nm already includes the block map) *)
 Definition mk_block (nm : cid -> K) (c : cellrec) : block := mkBlock (nm (cc c)) (cvol c) (ccen c).
-Definition mk_conn (nm : cid -> K) (l : linkrec) : conn := mkConn (nm (la l)) (nm (lb l)) (ldir l) (lda l) (ldb l) (larea l).
+Definition mk_conn (nm : cid -> K) (l : linkrec) : conn := mkConn (nm (la l)) (nm (lb l)) (ldir l) (lda l) (ldb l) (larea l) (ldcn l) (ldcr l).
 Definition rect_blocks (nm : cid -> K) (g : rgeo) : list block := map (mk_block nm) (cells g).
 Definition rect_conns (nm : cid -> K) (g : rgeo) : list conn := map (mk_conn nm) (links g).
 
@@ -496,7 +503,7 @@ Definition rectgeo (heading : Qc -> Qc -> option (Qc * Qc)) (fxp fx2 : bool) (g 
 End Model.
 
 Arguments mkBlock {K}. Arguments bkey {K}. Arguments bvol {K}. Arguments bcen {K}.
-Arguments mkConn {K}. Arguments ka {K}. Arguments kb {K}. Arguments kdir {K}. Arguments kda {K}. Arguments kdb {K}. Arguments karea {K}.
+Arguments mkConn {K}. Arguments ka {K}. Arguments kb {K}. Arguments kdir {K}. Arguments kda {K}. Arguments kdb {K}. Arguments karea {K}. Arguments kdcn {K}. Arguments kdcr {K}.
 Arguments mkGrid {K}. Arguments blocks {K}. Arguments conns {K}. Arguments cnames {K}.
 Arguments mk_block {K}. Arguments mk_conn {K}. Arguments rect_blocks {K}. Arguments rect_conns {K}.
 Arguments mkResult {K}. Arguments r_dx {K}. Arguments r_dy {K}. Arguments r_dz {K}. Arguments r_pos {K}.
